@@ -595,10 +595,13 @@ class Authorization(Endpoint):
                     error_description="Request object does not belong to the client",
                 )
 
-        if _ver_request is not None and getattr(_ver_request, "jws_header", None):
+        if _ver_request is not None:
+            # An object that did not arrive as a JWS (claims as plain JSON inside an encrypted
+            # wrapper) is an unsigned request object, the same as one that says alg "none".
+            _header = getattr(_ver_request, "jws_header", None)
             try:
                 self.allowed_request_algorithms(
-                    client_id, context, _ver_request.jws_header.get("alg", "RS256"), "sign"
+                    client_id, context, _header.get("alg", "RS256") if _header else "none", "sign"
                 )
             except ValueError:
                 return self.authentication_error_response(
